@@ -34,6 +34,7 @@ type solver struct {
 	nanos   int64
 	errs    int64
 	timeout int // ms per query
+	scope   []string // assertions made inside the innermost open (push 1) of a check
 }
 
 func newSolver(spec SolverSpec, timeoutMs int) (*solver, error) {
@@ -77,6 +78,14 @@ func (s *solver) close() {
 }
 
 func (s *solver) send(line string) {
+	switch {
+	case line == "(push 1)":
+		s.scope = s.scope[:0]
+	case line == "(pop 1)":
+		s.scope = s.scope[:0]
+	case strings.HasPrefix(line, "(assert "):
+		s.scope = append(s.scope, line)
+	}
 	if s.log != nil {
 		s.log.WriteString(line)
 		s.log.WriteByte('\n')
